@@ -51,13 +51,15 @@ type State struct {
 	// dirty is set when a delivered tx succeeded or a block ran on this branch (the stores may differ
 	// from the parent's); a clean branch has the parent's store contents.
 	dirty bool
+	// fork marks throw-away branches (epilogues, what-if runs): their actions are not part of the path
+	fork bool
 }
 
 // MarkDirty must be called by drivers that write to the stores other than through Deliver / NextBlock.
 func (s *State) MarkDirty() { s.dirty = true }
 
 func (s *State) branch() *State {
-	c := &State{Ctx: Branch(s.Ctx), Depth: s.Depth + 1, TxSeq: s.TxSeq}
+	c := &State{Ctx: Branch(s.Ctx), Depth: s.Depth + 1, TxSeq: s.TxSeq, fork: s.fork}
 	if s.Model != nil {
 		c.Model = s.Model.Clone()
 	}
@@ -68,6 +70,7 @@ func (s *State) branch() *State {
 func (s *State) Fork() *State {
 	c := s.branch()
 	c.Depth = s.Depth
+	c.fork = true
 	return c
 }
 
@@ -77,6 +80,11 @@ func (s *State) Deliver(e *Env, opName string, msgs ...sdk.Msg) Outcome {
 }
 
 func (s *State) DeliverWith(e *Env, opName string, h Handler, msgs ...sdk.Msg) Outcome {
+	if s.fork && e.Trace != nil {
+		saved := e.Trace
+		e.Trace = nil
+		defer func() { e.Trace = saved }()
+	}
 	out := e.DeliverWith(s.Ctx, fmt.Sprintf("%s#%d", opName, s.TxSeq), h, msgs...)
 	if out.OK {
 		s.TxSeq++
@@ -89,6 +97,11 @@ func (s *State) DeliverWith(e *Env, opName string, h Handler, msgs ...sdk.Msg) O
 // DeliverNoTx delivers msgs with empty transaction bytes (a message executed outside a transaction,
 // as a governance proposal's messages are).
 func (s *State) DeliverNoTx(e *Env, msgs ...sdk.Msg) Outcome {
+	if s.fork && e.Trace != nil {
+		saved := e.Trace
+		e.Trace = nil
+		defer func() { e.Trace = saved }()
+	}
 	out := e.DeliverBytes(s.Ctx, nil, nil, msgs...)
 	if out.OK {
 		s.dirty = true
@@ -99,6 +112,11 @@ func (s *State) DeliverNoTx(e *Env, msgs ...sdk.Msg) Outcome {
 
 // NextBlock advances the state by one block.
 func (s *State) NextBlock(e *Env, dt time.Duration) BlockOutcome {
+	if s.fork && e.Trace != nil {
+		saved := e.Trace
+		e.Trace = nil
+		defer func() { e.Trace = saved }()
+	}
 	ctx, bo := e.NextBlock(s.Ctx, dt)
 	s.Ctx = ctx
 	s.Last = "block"
